@@ -1,5 +1,5 @@
 """C09 -- builder is faithful and serialisation loses nothing (DESIGN.md 5.9)."""
-from purlsa.core import AnchorError
+from purlsa.core import AnchorError, callee_name
 from purlsa.sem import norm, nshow
 from purlsa import models, paths
 from purlsa.models import show_canon
@@ -99,7 +99,32 @@ def rule_effect(ctx):
             ok = fields.get("name") in (("conv", ("arg", 2)), ("arg", 2)) and all("default" in nshow(v).lower() for f_, v in fields.items() if f_ != "name")
     ctx.ob("EFFECT", "new(type, name): package_type = type, parts.name = SmallString::from(name), every other part default", ok, fn=k, site=fn_site(facts, k), detail=nshow(t)[:240])
     extra = sorted(set(ks) - set(R_EFFECT) - {"new", "build"})
-    ctx.ob("EFFECT", "no undocumented setter on GenericPurlBuilder", not extra, detail=str(extra))
+    # a method that is not in the table is fine if it is *composed* of the documented ones: it touches self only by calling
+    # them (so it is a call sequence the property already quantifies over); anything else is an undocumented setter
+    documented = set(ks[n_] for n_ in R_EFFECT if n_ in ks)
+    undocumented = []
+    for nm in extra:
+        k = ks[nm]
+        b = facts.body(k)
+        bad = []
+        if [w for w in b.partial_writes(1) if not b.is_cleanup(w[0])]:
+            bad.append("direct store into self")
+        for e in models.mut_effects(b):
+            if e["target"][0] == "arg" and e["target"][1] == 1 and e["path"] not in documented:
+                bad.append("mutable access %s" % e["path"])
+        for bb, t in b.calls():
+            pth = callee_name(t["callee"]) if "path" in t["callee"] else "<indirect>"
+            if pth in documented or models.is_plumbing(pth):
+                continue
+            for a in t["args"]:
+                ta = nshow(norm(b.resolve_operand(a)))
+                if ta == "arg1" or ta.startswith("arg1.") or "(arg1" in ta or " arg1" in ta:
+                    bad.append("self passed to %s" % pth)
+        if bad:
+            undocumented.append((nm, sorted(set(bad))[:3]))
+        else:
+            ctx.ob("EFFECT", "%s (not in the table) only calls documented setters" % nm, True, fn=k, site=fn_site(facts, k), detail="composition of documented setters")
+    ctx.ob("EFFECT", "no undocumented setter on GenericPurlBuilder", not undocumented, detail=str(undocumented))
     adt = facts.adts.get("builder::GenericPurlBuilder")
     ctx.ob("EFFECT", "the builder has exactly the fields package_type and parts", adt is not None and [f["name"] for f in adt["variants"][0]["fields"]] == ["package_type", "parts"], detail="")
     pp = facts.adts.get("PurlParts")
